@@ -49,7 +49,7 @@ def gen(rng, i):
         for _ in range(rng.choice([1, 2, 3])):
             x = rng.random()
             if depth < 2 and x < 0.15 and kind == "seq":
-                out.append(("loop", rng.choice([2, ("let", rng.choice(int_lets))]) if int_lets and rng.random() < 0.4 else 2, stmts(depth + 1)))
+                out.append(("loop", rng.choice([2, ("let", rng.choice(int_lets))]) if int_lets and rng.random() < 0.4 else rng.choice([2, 2, 0, 1]), stmts(depth + 1)))
             elif depth < 2 and x < 0.3 and kind == "seq":
                 out.append(("par", stmts(depth + 1, "par")))
             elif depth < 2 and x < 0.3 and kind == "par":
@@ -59,7 +59,8 @@ def gen(rng, i):
         return out
 
     def sub():
-        cnt = rng.choice([None, 3, ("let", rng.choice(int_lets))]) if int_lets else rng.choice([None, 3])
+        # boundary counts 0 and 1 are written out: a front end that treats a falsy count as "not given" shows here
+        cnt = rng.choice([None, 3, 0, 1, ("let", rng.choice(int_lets))]) if int_lets else rng.choice([None, 3, 0, 1])
         return ("sub", cnt, stmts(1))
 
     first = rng.choice(["plain", "prepare", "sub", "loop_sub", "loop_loop_sub", "loop_prepare", "seq_prepare", "loop_plain"])
